@@ -14,7 +14,7 @@ Ltac unfold_events :=
 Lemma table_repaired c f e : conformsb c f e (step c Repaired f e) = true.
 Proof.
   destruct c as [mc mt lc]; destruct lc;
-  destruct f as [s i r fl l a o]; destruct e as [| | | | |code id k dlen].
+  destruct f as [s i r fl l a o hl]; destruct e as [| | | | |code id k data].
   all: try (destruct s; reflexivity).
   all: try (unfold conformsb, classify, step, timeout; cbn; destruct (r >? 0); destruct s; reflexivity).
   all: unfold conformsb, classify; unfold_events; cbn;
@@ -32,7 +32,7 @@ Lemma table_defective_off_bad c f e :
   ncp_lcp_code c e = true.
 Proof.
   destruct c as [mc mt lc]; destruct lc;
-  destruct f as [s i r fl l a o]; destruct e as [| | | | |code id k dlen].
+  destruct f as [s i r fl l a o hl]; destruct e as [| | | | |code id k data].
   all: try (left; destruct s; reflexivity).
   all: try (destruct s; try (left; reflexivity); right; left; exists ROpen; split; reflexivity).
   all: try (left; unfold conformsb, classify, step, timeout; cbn; destruct (r >? 0); destruct s; reflexivity).
@@ -46,7 +46,7 @@ Lemma table_lcp_cells_fixed c v f e :
   fix_cells v = true -> lcp c = true -> conformsb c f e (step c v f e) = true.
 Proof.
   destruct c as [mc mt lc]; cbn; intros FC ->; destruct v as [fc fn]; cbn in FC; subst fc; destruct fn;
-  destruct f as [s i r fl l a o]; destruct e as [| | | | |code id k dlen].
+  destruct f as [s i r fl l a o hl]; destruct e as [| | | | |code id k data].
   all: try (destruct s; reflexivity).
   all: try (unfold conformsb, classify, step, timeout; cbn; destruct (r >? 0); destruct s; reflexivity).
   all: unfold conformsb, classify; unfold_events; cbn;
@@ -58,7 +58,7 @@ Qed.
 Lemma counter_ok c v f e :
   restart (step c v f e) = counter_after c f e (outs (step c v f e)).
 Proof.
-  destruct f as [s i r fl l a o]; destruct e as [| | | | |code id k dlen].
+  destruct f as [s i r fl l a o hl]; destruct e as [| | | | |code id k data].
   1-4: destruct s; destruct v as [[|] [|]]; reflexivity.
   - unfold counter_after, step, timeout; cbn. destruct (r >? 0); destruct s; reflexivity.
   - unfold counter_after; unfold_events; cbn.
@@ -68,7 +68,7 @@ Qed.
 
 Lemma ids_ok c v f e : ids_okb f e (outs (step c v f e)) = true.
 Proof.
-  destruct f as [s i r fl l a o]; destruct e as [| | | | |code id k dlen].
+  destruct f as [s i r fl l a o hl]; destruct e as [| | | | |code id k data].
   1-4: destruct s; destruct v as [[|] [|]]; cbn; rewrite ?Z.eqb_refl; reflexivity.
   - unfold ids_okb, step, timeout; cbn. destruct (r >? 0); destruct s; cbn; rewrite ?Z.eqb_refl; reflexivity.
   - unfold ids_okb; unfold_events; cbn.
@@ -81,9 +81,9 @@ Qed.
 Definition is_ack_code (code : Z) : bool :=
   match code_of code with KConfAck | KConfNak | KConfRej => true | _ => false end.
 
-Lemma stale_ignored c v f code id k dlen :
+Lemma stale_ignored c v f code id k data :
   is_ack_code code = true -> id <> lastReq f ->
-  step c v f (EInput code id k dlen) = clear_out f.
+  step c v f (EInput code id k data) = clear_out f.
 Proof.
   intros H N. apply Z.eqb_neq in N. unfold is_ack_code in H.
   unfold step, input, rcaEvent, rcnEvent.
@@ -91,8 +91,8 @@ Proof.
 Qed.
 
 Lemma current_ack_not_ignored_nonvac :
-  st (step default_cfg Repaired (run default_cfg Repaired init [EOpen; EUp]) (EInput 2 1 CGood 0)) = AckRcvd /\
-  step default_cfg Repaired (run default_cfg Repaired init [EOpen; EUp]) (EInput 2 2 CGood 0)
+  st (step default_cfg Repaired (run default_cfg Repaired init [EOpen; EUp]) (EInput 2 1 CGood [])) = AckRcvd /\
+  step default_cfg Repaired (run default_cfg Repaired init [EOpen; EUp]) (EInput 2 2 CGood [])
     = clear_out (run default_cfg Repaired init [EOpen; EUp]).
 Proof. split; vm_compute; reflexivity. Qed.
 
@@ -113,8 +113,8 @@ Lemma step_last_scr c v f e acc :
   let acc' := last_scr acc (IEv e :: map IAct (outs f')) in
   (acc' = None /\ acc = None /\ lastReq f' = lastReq f) \/ acc' = Some (lastReq f').
 Proof.
-  intros H; destruct f as [s i r fl l a o]; cbn in H.
-  destruct e as [| | | | |code id k dlen].
+  intros H; destruct f as [s i r fl l a o hl]; cbn in H.
+  destruct e as [| | | | |code id k data].
   1-4: destruct s; destruct v as [[|] [|]]; cbn; destruct H as [->| ->]; auto.
   - unfold step, timeout; cbn. destruct (r >? 0); destruct s; cbn; destruct H as [->| ->]; auto.
   - unfold_events; cbn.
@@ -178,7 +178,7 @@ Definition is_opened (s : St) : bool := st_eqb s Opened.
 Lemma step_alt c v f e :
   alt_acts (is_opened (st f)) (outs (step c v f e)) = Some (is_opened (st (step c v f e))).
 Proof.
-  destruct f as [s i r fl l a o]; destruct e as [| | | | |code id k dlen].
+  destruct f as [s i r fl l a o hl]; destruct e as [| | | | |code id k data].
   1-4: destruct s; destruct v as [[|] [|]]; reflexivity.
   - unfold step, timeout; cbn. destruct (r >? 0); destruct s; reflexivity.
   - unfold_events; cbn.
@@ -257,8 +257,8 @@ Lemma mon_step_ok strict c v f e m :
              MInv m' (step c v f e).
 Proof.
   intros SV (H1 & H2 & H3).
-  destruct m as [ls ou lr th]; destruct f as [s i r fl l a o]; cbn in H1, H2, H3.
-  destruct e as [| | | | |code id k dlen].
+  destruct m as [ls ou lr th]; destruct f as [s i r fl l a o hl]; cbn in H1, H2, H3.
+  destruct e as [| | | | |code id k data].
   1-4: destruct s; destruct v as [[|] [|]]; cbn; eexists; (split; [reflexivity|]); minv_solve.
   - unfold step, timeout; cbn. destruct (r >? 0); destruct s; cbn; eexists; (split; [reflexivity|]); minv_solve.
   - assert (SV' : strict = false \/ v = Repaired) by (destruct strict; auto).
@@ -297,7 +297,7 @@ Proof.
         eexists; (split; [reflexivity|]); minv_solve.
     + destruct s; try (destruct v as [[|] [|]]); cbn; eexists; (split; [reflexivity|]); minv_solve.
     + eexists; (split; [reflexivity|]); minv_solve.
-    + unfold st_eqb; destruct s; cbn; destruct (dlen >=? 4); cbn; eexists; (split; [reflexivity|]); minv_solve.
+    + unfold st_eqb; destruct s; cbn; destruct (dlen_of data >=? 4); cbn; eexists; (split; [reflexivity|]); minv_solve.
     + eexists; (split; [reflexivity|]); minv_solve.
     + eexists; (split; [reflexivity|]); minv_solve.
     + eexists; (split; [reflexivity|]); minv_solve.
@@ -351,7 +351,7 @@ Lemma timeout_step c v f :
   else (st f' = Closed \/ st f' = Stopped) /\ restart f' = restart f /\
        count_acts is_retrans (map IAct (outs f')) = 0%nat /\ count_acts is_tlf (map IAct (outs f')) = 1%nat.
 Proof.
-  destruct f as [s i r fl l a o]; intros W; unfold step, timeout; cbn.
+  destruct f as [s i r fl l a o hl]; intros W; unfold step, timeout; cbn.
   destruct (r >? 0); destruct s; try discriminate; cbn; auto 10.
 Qed.
 
@@ -396,8 +396,8 @@ Lemma rinv_step c v f e :
   0 <= maxConf c -> 0 <= maxTerm c -> RInv c f -> RInv c (step c v f e).
 Proof.
   intros HC HT (H1 & H2 & H3).
-  destruct f as [s i r fl l a o]; cbn in H1, H2, H3.
-  destruct e as [| | | | |code id k dlen].
+  destruct f as [s i r fl l a o hl]; cbn in H1, H2, H3.
+  destruct e as [| | | | |code id k data].
   1-4: destruct s; destruct v as [[|] [|]]; rinv_solve.
   - unfold step, timeout; cbn. destruct (r >? 0) eqn:E; [apply Z.gtb_lt in E|];
       destruct s; rinv_solve.
@@ -443,8 +443,8 @@ Definition TInv (f : fsm) : Prop := waiting (st f) = true -> armed f = true.
 
 Lemma tinv_step c f e : TInv f -> TInv (step c Repaired f e).
 Proof.
-  unfold TInv; destruct f as [s i r fl l a o]; cbn; intros H.
-  destruct e as [| | | | |code id k dlen].
+  unfold TInv; destruct f as [s i r fl l a o hl]; cbn; intros H.
+  destruct e as [| | | | |code id k data].
   1-4: destruct s; cbn; intros; try discriminate; auto.
   - unfold step, timeout; cbn. destruct (r >? 0); destruct s; cbn; intros; try discriminate; auto.
   - unfold_events; cbn.
@@ -482,8 +482,8 @@ Ltac finv_solve :=
 Lemma finv_step c f e :
   FInv c f -> (e = ETimeout -> armed f = true) -> FInv c (step c Repaired f e).
 Proof.
-  destruct f as [s i r fl l a o]; cbn; intros (H & H') T; cbn in H, H'.
-  destruct e as [| | | | |code id k dlen].
+  destruct f as [s i r fl l a o hl]; cbn; intros (H & H') T; cbn in H, H'.
+  destruct e as [| | | | |code id k data].
   1-4: destruct s; finv_solve.
   - specialize (T eq_refl). unfold step, timeout; cbn. destruct (r >? 0); destruct s; finv_solve.
   - unfold_events; cbn.
@@ -505,8 +505,8 @@ Lemma fresh_negotiation_step c f e :
   existsb is_scr (outs (step c Repaired f e)) = true ->
   restart (step c Repaired f e) = maxConf c /\ negotiating (st (step c Repaired f e)) = true.
 Proof.
-  destruct f as [s i r fl l a o]; cbn; intros (H & H') S; cbn in H, H'.
-  destruct e as [| | | | |code id k dlen].
+  destruct f as [s i r fl l a o hl]; cbn; intros (H & H') S; cbn in H, H'.
+  destruct e as [| | | | |code id k data].
   1-4: destruct s; try discriminate; cbn; intros; try discriminate; auto.
   - unfold step, timeout; cbn. destruct (r >? 0); destruct s; try discriminate; cbn; intros; try discriminate; auto.
   - unfold_events; cbn.
@@ -527,16 +527,16 @@ Qed.
 
 (* ------------------------------------------------------------ 9. witnesses against today's code *)
 
-Definition RCRp := EInput 1 7 CGood 0.
-Definition RCA1 := EInput 2 1 CGood 0.
-Definition RXJ := EInput 7 9 CGood 0.
-Definition RTRe := EInput 5 9 CGood 0.
-Definition RTAe := EInput 6 9 CGood 0.
+Definition RCRp := EInput 1 7 CGood [].
+Definition RCA1 := EInput 2 1 CGood [].
+Definition RXJ := EInput 7 9 CGood [].
+Definition RTRe := EInput 5 9 CGood [].
+Definition RTAe := EInput 6 9 CGood [].
 
 Definition dwit : list (list Ev * Ev) :=
   [ ([EOpen; EUp; EClose], EOpen);
     ([EOpen; EUp; RCRp], RCA1);
-    ([EOpen; EUp; RCRp], EInput 3 1 CGood 0);
+    ([EOpen; EUp; RCRp], EInput 3 1 CGood []);
     ([EOpen; EUp; RCA1], RTRe);
     ([EOpen; EUp; RCRp], RTRe);
     ([EOpen; EUp; RCA1], RTAe);
@@ -568,7 +568,7 @@ Proof.
     [ first
       [ exists [EOpen; EUp; EClose], EOpen; vm_compute; repeat split; reflexivity
       | exists [EOpen; EUp; RCRp], RCA1; vm_compute; repeat split; reflexivity
-      | exists [EOpen; EUp; RCRp], (EInput 3 1 CGood 0); vm_compute; repeat split; reflexivity
+      | exists [EOpen; EUp; RCRp], (EInput 3 1 CGood []); vm_compute; repeat split; reflexivity
       | exists [EOpen; EUp; RCA1], RTRe; vm_compute; repeat split; reflexivity
       | exists [EOpen; EUp; RCRp], RTRe; vm_compute; repeat split; reflexivity
       | exists [EOpen; EUp; RCA1], RTAe; vm_compute; repeat split; reflexivity
@@ -588,7 +588,7 @@ Lemma ncp_codes_refuted :
     outs (step ncp_cfg Defective f e) = [Ser 9] /\
     outs (step ncp_cfg Repaired f e) = [Scj 2 9 9] /\
     conformsb ncp_cfg f e (step ncp_cfg Defective f e) = false.
-Proof. exists [EOpen; EUp; RCRp; RCA1], (EInput 9 9 CGood 4). vm_compute. repeat split; reflexivity. Qed.
+Proof. exists [EOpen; EUp; RCRp; RCA1], (EInput 9 9 CGood [1;2;3;4]). vm_compute. repeat split; reflexivity. Qed.
 
 (* Terminate-Request in Opened: Stopping without a running timer *)
 Lemma timer_armed_refuted :
@@ -610,7 +610,7 @@ Lemma fresh_negotiation_refuted :
     st (run c Defective f [e; ETimeout]) = Stopped /\
     count_acts is_retrans (trace c Defective (step c Defective f e) [ETimeout]) = 0%nat.
 Proof.
-  exists (mkCfg 2 1 true), [EOpen; EUp; RCRp; ETimeout; ETimeout; EInput 2 3 CGood 0], RCRp.
+  exists (mkCfg 2 1 true), [EOpen; EUp; RCRp; ETimeout; ETimeout; EInput 2 3 CGood []], RCRp.
   vm_compute. repeat split; reflexivity.
 Qed.
 
@@ -620,9 +620,9 @@ Definition happy : list Ev := [EOpen; EUp; RCRp; RCA1].
 Lemma happy_opens :
   st (run default_cfg Repaired init happy) = Opened /\
   count_acts (fun a => match a with Tlu => true | _ => false end) (trace default_cfg Repaired init happy) = 1%nat /\
-  alternates false (trace default_cfg Repaired init (happy ++ [RTRe; ETimeout; RCRp; EInput 2 2 CGood 0; EDown])) = true /\
+  alternates false (trace default_cfg Repaired init (happy ++ [RTRe; ETimeout; RCRp; EInput 2 2 CGood []; EDown])) = true /\
   count_acts (fun a => match a with Tlu | Tld => true | _ => false end)
-     (trace default_cfg Repaired init (happy ++ [RTRe; ETimeout; RCRp; EInput 2 2 CGood 0; EDown])) = 4%nat.
+     (trace default_cfg Repaired init (happy ++ [RTRe; ETimeout; RCRp; EInput 2 2 CGood []; EDown])) = 4%nat.
 Proof. vm_compute. repeat split; reflexivity. Qed.
 
 Lemma bounded_nonvac :
@@ -633,8 +633,8 @@ Lemma bounded_nonvac :
 Proof. vm_compute. repeat split; reflexivity. Qed.
 
 Lemma fresh_nonvac :
-  let f := run (mkCfg 2 1 true) Repaired init [EOpen; EUp; RCRp; ETimeout; ETimeout; EInput 2 3 CGood 0] in
-  timer_ok (mkCfg 2 1 true) Repaired init [EOpen; EUp; RCRp; ETimeout; ETimeout; EInput 2 3 CGood 0] = true /\
+  let f := run (mkCfg 2 1 true) Repaired init [EOpen; EUp; RCRp; ETimeout; ETimeout; EInput 2 3 CGood []] in
+  timer_ok (mkCfg 2 1 true) Repaired init [EOpen; EUp; RCRp; ETimeout; ETimeout; EInput 2 3 CGood []] = true /\
   st f = Opened /\ existsb is_scr (outs (step (mkCfg 2 1 true) Repaired f RCRp)) = true /\
   restart (step (mkCfg 2 1 true) Repaired f RCRp) = 2.
 Proof. vm_compute. repeat split; reflexivity. Qed.
